@@ -56,10 +56,26 @@ def run_one(args):
                 reg.add_pixels(list(range(48)), 1)
                 reg._renorm()
             rec["whole"] = True
+        elif mode < 0.55:
+            # a coarse (MIMAS default depth 8, 13.7' pixels >> 2' image pixels) mask made of several separate
+            # patches: many pixels of one island share one HEALPix pixel, and the pixel list spans the sphere
+            reg = Region(maxdepth=8)
+            cx, cy = rng.uniform(0, shape[1]), rng.uniform(0, shape[0])
+            ra0, dec0 = w.all_pix2world([[cx, cy]], 0)[0]
+            reg.add_circles([math.radians(ra0), math.radians((ra0 + 170.0) % 360.0)],
+                            [math.radians(dec0), math.radians(-dec0 * 0.5)],
+                            [math.radians(rng.uniform(0.3, 0.7)), math.radians(0.6)])
+            rec["coarse"] = True
         else:
             cx, cy = rng.uniform(0, shape[1]), rng.uniform(0, shape[0])
             ra0, dec0 = w.all_pix2world([[cx, cy]], 0)[0]
             reg.add_circles(math.radians(ra0), math.radians(dec0), math.radians(rng.uniform(4, 25) * cd / 3600.0))
+        # membership oracle that does not use the query code under test: the deepest-level pixel set
+        # (get_demoted is pinned by C08) and healpy's ang2pix of each pixel centre
+        import copy
+        import healpy as hp
+        member = set(int(p) for p in copy.deepcopy(reg).get_demoted())
+        nside = 2 ** reg.maxdepth
         kw = dict(rms=0.3, bkg=0.0, cores=1, nonegative=False, innerclip=rng.choice([5, 6]), outerclip=rng.choice([3, 4]))
         with contextlib.redirect_stderr(io.StringIO()):
             sf = SourceFinder()
@@ -75,7 +91,8 @@ def run_one(args):
             rr, cc = np.where(~np.asarray(i.mask))
             pix = [(int(a) + r0, int(b) + c0) for a, b in zip(rr, cc)]
             sky = w.all_pix2world([[c, r] for r, c in pix], 0)
-            inside = reg.sky_within(sky[:, 0], sky[:, 1], degin=True)
+            hpx = hp.ang2pix(nside, np.radians(90.0 - sky[:, 1]), np.radians(sky[:, 0]), nest=True)
+            inside = [int(p) in member for p in hpx]
             rec["islands"].append({"num": n, "pix": [[r + 1, c + 1] for r, c in pix],
                                    "inside": [[r + 1, c + 1] for (r, c), b in zip(pix, inside) if b]})
         rec["unrestricted"] = [{"island": int(s.island), "tok": synth.src_token(s)} for s in A]
@@ -94,7 +111,7 @@ def run(ctx, n, seeds=None):
     with mp.Pool(min(16, max(1, len(seeds)))) as pool:
         recs = pool.map(run_one, [(s, ctx.workdir, k == 0) for k, s in enumerate(seeds)], chunksize=1)
     tf = os.path.join(ctx.workdir, "finder_region.json")
-    common.dump_json(tf, [{k: v for k, v in r.items() if k not in ("cls", "seed")} for r in recs])
+    common.dump_json(tf, [{k: v for k, v in r.items() if k not in ("cls", "seed", "coarse")} for r in recs])
     res = ctx.tlc("FinderRegion_Trace", common.cfg(spec="Spec", post="BatchDone", deadlock=False),
                   name="finder_region", workers=1, env={"TRACE_FILE": tf})
     byid = {r["id"]: r for r in recs}
